@@ -467,6 +467,8 @@ pub async fn catch_up_sub(
         let cancel = cancel.clone();
         async move {
             loop {
+                #[cfg(feature = "verif")]
+                klukai_types::verif::gate("catchup.queue_loop").await;
                 let (buf, meta) = tokio::select! {
                     _ = cancel.cancelled() => {
                         break;
@@ -487,6 +489,8 @@ pub async fn catch_up_sub(
         }
     });
 
+    #[cfg(feature = "verif")]
+    klukai_types::verif::gate("catchup.before_snapshot").await;
     let mut last_change_id = {
         let res = match params.from {
             Some(from) => catch_up_sub_from(&matcher, from, &evt_tx).await,
